@@ -72,6 +72,42 @@ TOTAL = {
     "std::vec::Vec::<T>::new": "constructor",
     "std::vec::Vec::<T>::with_capacity": "allocation only (capacity overflow is an allocation failure)",
     "std::mem::take": "total (Default::default of a std collection)",
+    "std::string::String::push": "allocation only",
+    "std::string::String::push_str": "allocation only",
+    "std::collections::hash_map::OccupiedEntry::<'a, K, V, A>::key": "total",
+    "std::collections::hash_map::OccupiedEntry::<'a, K, V, A>::get": "total",
+    "std::collections::hash_map::VacantEntry::<'a, K, V, A>::insert": "allocation only",
+    "std::option::Option::<T>::map": "total apart from the closure",
+    "std::option::Option::<T>::map_or": "total apart from the closure",
+    "std::option::Option::<T>::map_or_else": "total apart from the closures",
+    "std::option::Option::<T>::unwrap_or_else": "total apart from the closure",
+    "std::option::Option::<T>::unwrap_or": "total",
+    "std::option::Option::<T>::unwrap_or_default": "total",
+    "std::option::Option::<T>::and_then": "total apart from the closure",
+    "std::option::Option::<T>::filter": "total apart from the closure",
+    "std::option::Option::<T>::ok_or_else": "total apart from the closure",
+    "std::option::Option::<T>::get_or_insert": "total",
+    "std::option::Option::<T>::insert": "total",
+    "std::option::Option::<T>::replace": "total",
+    "std::option::Option::<&T>::copied": "total",
+    "std::option::Option::<&T>::cloned": "total apart from Clone",
+    "std::result::Result::<T, E>::map_err": "total apart from the closure",
+    "std::result::Result::<T, E>::and_then": "total apart from the closure",
+    "std::result::Result::<T, E>::unwrap_or_else": "total apart from the closure",
+    "std::result::Result::<T, E>::or_else": "total apart from the closure",
+    "std::result::Result::<T, E>::ok": "total",
+    "std::iter::Iterator::find": "total apart from the closure",
+    "std::iter::Iterator::copied": "adapter",
+    "std::iter::Iterator::cloned": "adapter",
+    "std::iter::Iterator::any": "total apart from the closure",
+    "std::iter::Iterator::all": "total apart from the closure",
+    "std::iter::Iterator::take_while": "adapter",
+    "std::iter::Iterator::peekable": "adapter",
+    "std::iter::Iterator::filter": "adapter",
+    "std::iter::Iterator::skip": "adapter",
+    "std::iter::Iterator::rev": "adapter",
+    "std::iter::Iterator::last": "total",
+    "std::iter::Iterator::count": "overflow only after usize::MAX items",
     "std::mem::replace": "total",
     "std::mem::swap": "total",
     "std::mem::drop": "total apart from the value's Drop",
@@ -286,7 +322,7 @@ def body_invariant(ctx):
     n_paths = n_drains = 0
     bbr_field = ("field", ("deref", ("arg", 1)), conn.HC, "body_bytes_to_be_read")
     for fn in methods:
-        lv = PathEnum(fn, facts, versioned=True).run()
+        lv = PathEnum(fn, facts, versioned=True, lower=True).run()
         ctx.touched(fn)
         for lf in lv:
             if lf.kind not in ("return", "loop"):
@@ -415,7 +451,10 @@ def body_invariant(ctx):
                 ctx.ob("R03.6", "%s|exit|%s->%s|bb%d" % (fn.name.split("::")[-1], "WFB" if in_body else "other", "WFB" if state_now == WFB else "other", lf.trace[-2] if len(lf.trace) > 1 else 0), good, "%s %s" % (fn.name.split("::")[-1], msg), fn.loc(lf.bb))
     # the declared length cannot change while a body is awaited
     callers = sorted({f.name for f in facts.fns.values() if list(f.calls_to(conn.PHL))})
-    okc = set(callers) <= {conn.PARSE_H, "common::headers::Headers::try_from"}
+    roots = set()
+    for c in callers:
+        roots |= known_callers(facts, c) if is_new_fn(c) else {c}
+    okc = roots <= {conn.PARSE_H, "common::headers::Headers::try_from"}
     ctx.ob("R03.6", "content-length-stable", okc, "parse_header_line (the only writer of Headers.content_length) is called from %s: not while a body is awaited" % callers)
     new_ok = False
     fnew = facts.fn(conn.P + "new")
@@ -472,14 +511,26 @@ def panics(ctx, typestate_ok, body_inv_ok=False, scope=None):
             pass
     pa = PanicAnalysis(facts, tables)
     nfn = 0
+    from .. import paths as _paths
+    _paths.LOWERED.clear()
+    closures = []
     for fn in facts.fns.values():
         if is_derive(fn):
             continue
         if fn.d["kind"] != "closure" and is_new_fn(fn.name) and has_callers(facts, fn.name):
             ctx.touched(fn)
             continue    # traversed inline at its call sites
+        if fn.d["kind"] == "closure":
+            closures.append(fn)
+            continue
         nfn += 1
         ctx.touched(fn)
+        pa.analyse_fn(fn)
+    for fn in closures:
+        ctx.touched(fn)
+        if fn.name in _paths.LOWERED:
+            continue    # a closure literal handed to an Option/Result combinator: analysed in the context of that call
+        nfn += 1
         pa.analyse_fn(fn)
     # helpers nested deeper than the inlining bound were met as opaque calls: analyse them on their own
     done = set()
@@ -513,7 +564,7 @@ def panics(ctx, typestate_ok, body_inv_ok=False, scope=None):
             n_env += 1
             ctx.ob("R03.2", "site|" + full_key, True, "environment-justified (outside the parsing entry points; see C09): %s" % env[0], s.loc)
             continue
-        asm = [r for (f, a, b), r in ASSUMED.items() if f == s.fn and a in s.key and b in s.desc]
+        asm = [r for (f, a, b), r in ASSUMED.items() if (f == s.fn or (is_new_fn(s.fn) and s.fn.startswith(conn.P))) and a in s.key and b in s.desc]
         if asm and body_inv_ok:
             n_ok += 1
             ctx.ob("R03.2", "site|" + full_key, True, "proved by the inductive object invariant R03.6 (len(body_vec) + body_bytes_to_be_read == content_length while WaitingForBody)", s.loc)
@@ -825,7 +876,7 @@ def ranking(ctx, fn):
     arm_of = {conn.PARSE_RL: "WaitingForRequestLine", conn.PARSE_H: "WaitingForHeaders", conn.PARSE_B: "WaitingForBody"}
     for name, st_name in arm_of.items():
         f = facts.fn(name)
-        lv = PathEnum(f, facts, versioned=True).run()
+        lv = PathEnum(f, facts, versioned=True, lower=True).run()
         for lf in lv:
             rk = ret_kind(lf)
             if rk is None or rk[0] != "Ok" or look(rk[1]) != ("const", True):
